@@ -64,8 +64,13 @@ var pipesimAssume = []string{
 
 var props = map[string]propCfg{
 	"C05": {Engine: "pipesim", Level: "exploration", QuickRandom: 30000, QuickWall: 20, ThoroughRand: 4000000, ThoroughWall: 420,
-		Rule: "one case = one simulated run (plan + schedule tape). Enumerated: every sequential stage x capacity {0,1,2,5} x input length 0..3 (thorough 0..5) x function variants x 6 base schedules; then seeded random plans (stage, length, capacity, Take n, function, paces, policy, preemption). Distinct = distinct hash of the (task,site) release sequence and select outcomes; non-trivial = at least 3 scheduling decisions had >= 2 runnable tasks or a stall/arbitration fault fired."},
+		Rule: "one case = one simulated run (plan + schedule tape). Enumerated: every sequential stage x capacity {0,1,2,5} x input length 0..3 (thorough 0..5) x function variants x 6 base schedules; then seeded random plans (stage, length, capacity, Take n, function, paces, policy, preemption). " + distinctRule},
+	"C06": {Engine: "pipesim", Level: "fault_enumeration", QuickRandom: 30000, QuickWall: 25, ThoroughRand: 4000000, ThoroughWall: 480,
+		Rule: "one case = one simulated run (plan + fault plan + schedule tape). Enumerated (complete for that sub-space): 14 stages x capacity {0,1,2} x input length 0..3 x 4 base schedules (thorough: length 0..4, 6 schedules), each base run re-run with the cancel injected before every step k=0..L and with each consumer walking away after every k=0..len+1 elements; then seeded random plans with cancel (step, virtual-time, at quiescence), abandonment, never-closing inputs, stalls, failing functions. " + distinctRule},
 }
+
+const distinctRule = "Distinct = distinct hash of the (task,site) release sequence and select outcomes; non-trivial = a fault fired (cancel while library tasks were alive, abandonment, stall, select arbitration against source order, preemption, failing function) or at least 3 scheduling decisions had >= 2 runnable tasks."
+
 
 func die(code int, format string, args ...any) {
 	fmt.Fprintf(os.Stderr, format+"\n", args...)
